@@ -26,17 +26,21 @@ type c06FailOp struct {
 // termProbe is the custom CheckWriteHook for both Panic and Fatal: it snapshots which sinks hold the entry at the moment
 // the logger gives up control.
 type termProbe struct {
-	sinks *[]*failSink
-	ran   int
-	at    []int
+	sinks  *[]*failSink
+	ran    int
+	at     []int
+	synced []int // sinks whose Sync had been called when control was lost
 }
 
 func (t *termProbe) OnWrite(*zapcore.CheckedEntry, []zapcore.Field) {
 	t.ran++
-	t.at = []int{}
+	t.at, t.synced = []int{}, []int{}
 	for _, s := range *t.sinks {
 		if len(s.writes) > 0 {
 			t.at = append(t.at, s.id)
+		}
+		if s.syncs > 0 {
+			t.synced = append(t.synced, s.id)
 		}
 	}
 }
@@ -116,10 +120,14 @@ func c06ExecFail(raw json.RawMessage) Result {
 		all = append(all, w...)
 	}
 	errLines := bytes.Count(all, []byte("\n"))
-	at := probe.at
+	at, syncedAt := probe.at, probe.synced
 	if at == nil {
 		at = []int{}
 	}
+	if syncedAt == nil {
+		syncedAt = []int{}
+	}
+	wantSynced := c06SyncWant(op.Core, true)
 	// independent oracle
 	o := ok()
 	wantTerm := op.L == 4 || op.L == 5 || (op.L == 3 && op.Dev)
@@ -148,7 +156,39 @@ func c06ExecFail(raw json.RawMessage) Result {
 		o = bad("C06:terminal-before-write", "sinks reached %v, want %v", delivered, want)
 	case anyErr && errLines != 1:
 		o = bad("C06:sink-failure-not-reported", "%d lines on the error output although a write failed", errLines)
+	case !anyErr && errLines != 0:
+		o = bad("C06:spurious-error-line", "%d lines on the error output although no write failed: %q", errLines, trunc2(all))
+	case wantTerm && fmt.Sprint(syncedAt) != fmt.Sprint(wantSynced):
+		o = bad("C06:terminal-before-sync", "when control was lost the sinks synced were %v, want %v (every io core whose write did not fail syncs its sinks)", syncedAt, wantSynced)
 	}
-	return Result{Impl: map[string]any{"delivered": delivered, "errorLines": errLines, "terminal": probe.ran > 0, "deliveredAtTerminal": at},
+	return Result{Impl: map[string]any{"delivered": delivered, "errorLines": errLines, "terminal": probe.ran > 0, "deliveredAtTerminal": at, "syncedAtTerminal": syncedAt},
 		Oracle: o, Nontrivial: anyErr && wantTerm, Shape: fmt.Sprintf("failterm/l%d/%s/sinks%d/err%v", op.L, op.Via, bucket(len(want)), anyErr)}
+}
+
+// c06SyncWant: the sinks that must have been synced when the terminal hook runs — the sinks of every io core the entry
+// was written through and none of whose sinks failed the write (ioCore.Write syncs after a successful write above Error).
+func c06SyncWant(c *c10Core, check bool) []int {
+	out := []int{}
+	switch c.T {
+	case "io":
+		if !check || c.Enabled {
+			for _, s := range c.Sinks {
+				if s.WErr {
+					return []int{}
+				}
+			}
+			for _, s := range c.Sinks {
+				out = append(out, s.ID)
+			}
+		}
+	case "tee":
+		for i := range c.CS {
+			out = append(out, c06SyncWant(&c.CS[i], check)...)
+		}
+	case "wrap":
+		if !check || c10Enabled(c.C) {
+			out = append(out, c06SyncWant(c.C, false)...)
+		}
+	}
+	return out
 }
